@@ -186,6 +186,16 @@ class _Paginate(Contract):
             q = st.ghost["__iter_index__"]                # 0-based position in the sorted unique pages
             p = z3.simplify(to_z3(q) + 1)
             ob = lambda name, f: I.oblige(st, f"{name}@L{site}", f, "post", site)
+            # omitted keyword arguments take the real model's declared defaults; an omitted required field is a construction error
+            real = I.ctx.index.real_module("rtflite.pagination.strategies.base").PageContext
+            kwargs = dict(kwargs)
+            for fname, finfo in real.model_fields.items():
+                if fname not in kwargs:
+                    if finfo.is_required():
+                        ob(f"C01.PageContext_required_field_{fname}_given", z3.BoolVal(False))
+                        kwargs[fname] = None
+                    elif finfo.default_factory is None:
+                        kwargs[fname] = finfo.default
             ob("C06.page_number_is_position_plus_1", to_z3(kwargs["page_number"]) == p)
             ob("C06.total_pages", to_z3(kwargs["total_pages"]) == mv.m)
             ob("C06.is_first_iff_number_1", to_z3(kwargs["is_first_page"]) == (p == 1))
